@@ -20,6 +20,12 @@ CONFIGS = {
     "alloc-input": dict(modes=("allocate", "input"), nmsg=(1, 2)),
     "set-set-starved": dict(modes=("set", "set"), nmsg=(1, 1), canon="starveA"),
 }
+THOROUGH_CONFIGS = {
+    "alloc-input-starvedB": dict(modes=("allocate", "input"), nmsg=(1, 1), canon="starveB"),
+    "set-set-burst": dict(modes=("set", "set"), nmsg=(2, 1), canon="burst"),
+    "set-set-lazy": dict(modes=("set", "set"), nmsg=(1, 1), canon="lazy", eager=False),
+}
+ALL_CONFIGS = dict(CONFIGS, **THOROUGH_CONFIGS)
 PHASES = ["pake", "version", "0", "1", "dilate-0", "junk", "0\u0661", "0\u200b", "00", "\u0660"]
 NONPAKE = ["version", "0", "1", "dilate-0", "junk", "0\u0661", "1\u200b"]
 
@@ -140,7 +146,7 @@ class Tamper(Job):
 
     def run(self, script):
         symbolic = script is None
-        canon = canonical(self.cfg, CONFIGS, False)
+        canon = canonical(self.cfg, ALL_CONFIGS, False)
         if symbolic:
             span = [p for p in range(self.plo, self.phi) if p <= len(canon)]
             if not span:
@@ -150,7 +156,7 @@ class Tamper(Job):
             eng().inputs.update(prefix=p, victim=victim)
         else:
             p, victim = script["prefix"], script["victim"]
-        sim = Sim(**sim_args(CONFIGS[self.cfg]))
+        sim = Sim(**sim_args(ALL_CONFIGS[self.cfg]))
         accepted = []       # (side label, phase label, body) of every message that decrypted successfully, on either client
         last = {}
         real_dpk, real_dec = RCV.derive_phase_key, RCV.decrypt_data
@@ -318,14 +324,14 @@ class PhaseKeyBinding(Job):
 def jobs(tier):
     thorough = tier == "thorough"
     J = [PhaseKeyBinding()]
-    for cfg in CONFIGS:
-        n = len(canonical(cfg, CONFIGS, False))
+    for cfg in (ALL_CONFIGS if thorough else CONFIGS):
+        n = len(canonical(cfg, ALL_CONFIGS, False))
         step = 3 if thorough else 6
         for lo in range(0, n + 1, step):
             J.append(Tamper(cfg, lo, min(lo + step, n + 1), 1, "relabel"))
             J.append(Tamper(cfg, lo, min(lo + step, n + 1), 1, "flip"))
         if thorough:
-            for lo in range(0, n + 1, 3):
+            for lo in range(0, n + 1):
                 J.append(Tamper(cfg, lo, lo + 1, 2, "relabel"))
     return J
 
